@@ -121,9 +121,24 @@ fn replay(args: &[String]) -> i32 {
         let ids = p.as_array().unwrap();
         let mut im = Impl::new(nh);
         let mut trace = vec![];
-        for id in ids.iter().skip(1) {
-            let id = id.as_str().unwrap();
-            let n = by_id[id];
+        for step in ids.iter().skip(1) {
+            // a step is a node id (the operation is the node's own label) or {id, op, h, g, x, res} (operation of
+            // the EDGE taken; the node then only supplies the expected state)
+            let (id, ov) = match step {
+                J::String(s) => (s.as_str(), None),
+                o => (o["id"].as_str().unwrap(), Some(o)),
+            };
+            let node = by_id[id];
+            let merged;
+            let n: &J = match ov {
+                None => node,
+                Some(o) => {
+                    let mut m = node.clone();
+                    for k in ["op", "h", "g", "x", "res"] { m[k] = o[k].clone(); }
+                    merged = m;
+                    &merged
+                }
+            };
             let op = n["op"].as_str().unwrap();
             let (h, g, x) = (n["h"].as_u64().unwrap() as usize, n["g"].as_u64().unwrap() as usize, n["x"].as_u64().unwrap() as u32);
             trace.push(json!([op, h, g, x]));
